@@ -702,3 +702,4 @@ if list(rows) != [widx] or not np.array_equal(mm[widx], exp.astype(np.float32), 
 not_reproduced()
 """
     return None
+LEVEL_TEXT = LEVEL_TEXT + " Round 7: integer (int16) traces with the NaN row added by the function; the templates step may not alter the saved traces (overwrite_input modelled as 'content unspecified')."
